@@ -38,7 +38,11 @@ Record rstate := mk_rstate {
 Definition reader_init (im : image) : rstate :=
   {| cur := 0; remaining := declared im; flushed := false; next_row := Some 0; finished := false |}.
 
-Inductive op := OFrame | ORow | OFrameInfo | OFinish.
+(* ORowF = a row call during which the data sequence of the frame ends and is flushed although rows are still buffered (the inflater
+   releases the tail of a highly compressible frame only with the end-of-sequence flush): subframe.consumed_and_flushed becomes
+   true and the frame is counted while current_interlace_info is still Some.  Which row calls are of this kind depends on the
+   compressed data; the theorems hold for every placement. *)
+Inductive op := OFrame | ORow | ORowF | OFrameInfo | OFinish.
 
 Inductive res :=
 | RFrame (k : nat)           (* Ok(OutputInfo) for frame k *)
@@ -81,25 +85,34 @@ Fixpoint take_rows (im : image) (vis k j n : nat) : delivered * option nat :=
             else ([], Some j)          (* stopped before row j *)
   end.
 
+(* next_frame advances to the next frame only when the current one is flushed AND all its rows were handed out (after the repair) *)
+Definition advancing (s : rstate) : bool := flushed s && match next_row s with None => true | Some _ => false end.
+
+(* the three row calls; [early]: the data sequence ends (and is flushed) during this call *)
+Definition row_step (im : image) (vis : nat) (s : rstate) (early : bool) : rstate * res * delivered :=
+  match next_row s with
+  | None =>
+    match finish_decoding im vis s with
+    | (s', None) => (s', RRowNone, [])
+    | (s', Some r) => (s', r, [])
+    end
+  | Some j =>
+    if row_visible im vis (cur s) j
+    then let fl := early && negb (flushed s) && frame_end_visible im vis (cur s) in
+         (mk_rstate (cur s) (if fl then pred (remaining s) else remaining s) (if fl then true else flushed s)
+                    (if S j <? nrows im (cur s) then Some (S j) else None) (finished s),
+          RRow (cur s) j, [(cur s, j)])
+    else (s, REofR, [])
+  end.
+
 Definition step (im : image) (vis : nat) (s : rstate) (o : op) : rstate * res * delivered :=
   match o with
-  | ORow =>
-    match next_row s with
-    | None =>
-      match finish_decoding im vis s with
-      | (s', None) => (s', RRowNone, [])
-      | (s', Some r) => (s', r, [])
-      end
-    | Some j =>
-      if row_visible im vis (cur s) j
-      then (mk_rstate (cur s) (remaining s) (flushed s) (if S j <? nrows im (cur s) then Some (S j) else None) (finished s),
-            RRow (cur s) j, [(cur s, j)])
-      else (s, REofR, [])
-    end
+  | ORow => row_step im vis s false
+  | ORowF => row_step im vis s true
   | OFrame =>
     if remaining s =? 0 then (s, REndOfImage, [])
     else
-      let '(s1, r1) := if flushed s then advance im vis s else (s, None) in
+      let '(s1, r1) := if advancing s then advance im vis s else (s, None) in
       match r1 with
       | Some r => (s1, r, [])
       | None =>
